@@ -438,7 +438,10 @@ def run(ctx):
         i += 1
         # many same-kind elements, several fallible singletons, constructors sharing a function name across modules:
         # the places where iteration order of an unordered table could reach the output
-        kn = gen.Knobs(avoid_known=True, n_types=(8, 14), n_handlers=(5, 9), n_mws=(3, 7), p_modules=0.9, p_fallible_ctor=0.45)
+        # (and several prebuilt types / configuration entries: the fields of `ApplicationConfig` and the parameters of
+        # `ApplicationState::new` are generated from unordered tables too)
+        kn = gen.Knobs(avoid_known=True, n_types=(8, 14), n_handlers=(5, 9), n_mws=(3, 7), p_modules=0.9, p_fallible_ctor=0.45,
+                       p_state_inputs=1.0 if len(cases) % 2 == 0 else 0.5, p_input_each=0.9 if len(cases) % 2 == 0 else 0.45)
         spec = gen.gen_inclass(rng, kn)
         cases.append({"id": "det-%d-%d" % (ctx.seed, i - 1), "spec": spec, "alt_spec": alt_of(spec, rng), "shape": gen.shape_signature(spec),
                       "cold": (len(cases) == 0), "ext": (len(cases) in (1, 2) or ctx.tier == "thorough")})
